@@ -5,7 +5,7 @@ use ntex_bytes::{ByteString, Bytes};
 use ntex_util::{channel::pool, future::Either, future::Ready};
 
 use super::codec::{self, EncodeLtd};
-use super::shared::{Ack, AckType, MqttShared};
+use super::shared::{Ack, AckType, MqttShared, Readiness};
 use crate::{error::EncodeError, error::SendPacketError, types::QoS};
 
 pub struct MqttSink(Rc<MqttShared>);
@@ -62,7 +62,16 @@ impl MqttSink {
         } else {
             self.0.wait_readiness().map_or_else(
                 || Either::Left(ready(true)),
-                |rx| Either::Right(async move { rx.await.is_ok() }),
+                |rx| {
+                    let shared = self.0.clone();
+                    let ready = Readiness::new(&shared, Some(rx));
+                    Either::Right(async move {
+                        let result = ready.await;
+                        // readiness does not occupy capacity, let next queued request to proceed
+                        shared.wake_waiter();
+                        result
+                    })
+                },
             )
         }
     }
@@ -301,8 +310,9 @@ impl PublishBuilder {
 
             // handle client receive maximum
             if let Some(rx) = self.shared.wait_readiness() {
+                let ready = Readiness::new(&self.shared, Some(rx));
                 Either::Left(Either::Left(async move {
-                    if rx.await.is_err() {
+                    if !ready.await {
                         return Err(SendPacketError::Disconnected);
                     }
                     self.send_at_least_once_inner(payload).await
@@ -364,8 +374,9 @@ impl PublishBuilder {
 
             // handle client receive maximum
             let fut = if let Some(rx) = self.shared.wait_readiness() {
+                let ready = Readiness::new(&self.shared, Some(rx));
                 Either::Left(Either::Left(async move {
-                    if rx.await.is_err() {
+                    if !ready.await {
                         return Err(SendPacketError::Disconnected);
                     }
                     self.stream_at_least_once_inner(tx, None).await
@@ -381,6 +392,11 @@ impl PublishBuilder {
         mut self,
         payload: Bytes,
     ) -> Result<codec::PublishAck, SendPacketError> {
+        // capacity could be used by other request since this future was created
+        if !Readiness::new(&self.shared, None).await {
+            return Err(SendPacketError::Disconnected);
+        }
+
         // packet id
         let idx = self.shared.set_publish_id(&mut self.packet);
 
@@ -398,6 +414,11 @@ impl PublishBuilder {
         tx: pool::Sender<()>,
         chunk: Option<Bytes>,
     ) -> Result<codec::PublishAck, SendPacketError> {
+        // capacity could be used by other request since this future was created
+        if !Readiness::new(&self.shared, None).await {
+            return Err(SendPacketError::Disconnected);
+        }
+
         // packet id
         let idx = self.shared.set_publish_id(&mut self.packet);
 
@@ -428,8 +449,9 @@ impl PublishBuilder {
 
             // handle client receive maximum
             if let Some(rx) = self.shared.wait_readiness() {
+                let ready = Readiness::new(&self.shared, Some(rx));
                 Either::Left(Either::Left(async move {
-                    if rx.await.is_err() {
+                    if !ready.await {
                         return Err(SendPacketError::Disconnected);
                     }
                     self.send_exactly_once_inner(payload).await
@@ -595,9 +617,7 @@ impl SubscribeBuilder {
             Err(SendPacketError::Disconnected)
         } else {
             // handle client receive maximum
-            if let Some(rx) = shared.wait_readiness()
-                && rx.await.is_err()
-            {
+            if !Readiness::new(&shared, None).await {
                 return Err(SendPacketError::Disconnected);
             }
 
@@ -683,9 +703,7 @@ impl UnsubscribeBuilder {
             Err(SendPacketError::Disconnected)
         } else {
             // handle client receive maximum
-            if let Some(rx) = shared.wait_readiness()
-                && rx.await.is_err()
-            {
+            if !Readiness::new(&shared, None).await {
                 return Err(SendPacketError::Disconnected);
             }
             // allocate packet id
